@@ -47,5 +47,30 @@ for f in sorted(glob.glob(V+'/harness/mon/c*/MUTATIONS.md')):
 print("%d MUTATIONS.md files, about %d recorded mutants.\n" % (files, tot))
 print("### 7.8 Independently seeded changes\n")
 print("For each property a fresh sub-agent that saw only the property text (nothing from /verif) produced, in its own scratch worktree, a change\nthat breaks the property, compiles and passes the existing suite, plus a demonstration that fails with the change and passes without. Each was\nconfirmed again in a fresh worktree (`tools/seedconfirm.sh`: demo passes on HEAD, patch applies, `go build`, existing tests of the touched\npackages, demo fails) and filed as `/verif/seeded/<id>/{patch.diff, demo/, NOTES.md, meta.json}`. `tools/seedeval.sh` applies a seeded patch to a\nscratch worktree of /repo's HEAD and runs the checks against it (equivalent to `git -C /repo apply` + run + `git checkout`, without disturbing\nconcurrent users of /repo). Result of the last sweep (`tools/seedsweep.sh`, quick tier, seed 1):\n")
+print("""Seeding was done in rounds (`seeded/CNN` = round 1, `seeded/CNNb` = round 2, `seeded/CNNc` = round 3; later rounds were asked for less
+prominent entry points, histories and interleavings). A seeded change that a check missed was never dropped: the check was strengthened until
+it caught it, and the unchanged tree was re-verified silent. What the misses taught:
+
+| seed | why the first version of the check missed it | what was added |
+|---|---|---|
+| C01 | stale identifier cache when a second header is decoded into a used object – only fresh objects were decoded | receiver-reuse sub-check (decode A, read id, decode B into the same object); it immediately found the same defect, un-seeded, in `DijkstraBlockHeader` (fixed, `562f8b2`) |
+| C01b | lazily computed hash published before it is filled – only visible to a second goroutine | concurrent first `Hash()` on freshly decoded headers / blocks (value check) |
+| C04 | chain-point hash / slot of another CBOR type (null, array of ints, tagged bytes) accepted by a struct decoder | eleven more point type-confusion mutants |
+| C08 | range check split into an int64 path and a bignum path lost the sign test for -(2^63+1)..-(2^64-1) | sign x magnitude boundary grid around 2^63 and 2^64 |
+| C08b | out-of-range quantity behind a duplicate asset-name key (lenient last-wins decode path) | duplicate-key family |
+| C13 | lost wake-up when the 1 ms poll of the back-pressure wait is replaced by a signal | `tight` scenario + perturbation point `read.backpressureWait`; `gated` scenario for the hand-made mutants |
+| C14 | timer not re-armed on a self-transition (streaming state) | self-loop stream cases |
+| C14b | timer never armed when the initial state is re-entered | re-entered-initial-state stall cases |
+| C21b | roll-backward overtakes roll-forwards still inside a configured block pipeline | chain-sync + `BlockPipeline` histories |
+| C22b | node-to-node roll-forward refuses Dijkstra blocks – refusals were only counted | a refusal of a Shelley-or-later block is a violation |
+| C25 | re-acquire at the immutable tip sent as "volatile tip" – the tagging server could not tell acquire flavours apart | flavour / point tag in every later reply, all flavours in first- and re-acquire position |
+| C27b | tokens of spent inputs vanish (no mint, ada-only outputs) – the generator always balanced assets | dropped-asset and unprovided-asset families |
+| C30 | envelope recognised only by the one-byte header `84` – a too LARGE size was counted, not judged | `size-too-large` keyed by envelope header form; found the genuine indefinite-envelope defect (fixed, `c2992f6`) |
+| C31 | bytes of an explicitly empty datum field hashed | present-but-empty datum / redeemer fields in all encodings |
+| C32 | collateral return gives back only some asset names of a policy | multi-name / multi-policy collateral family |
+| C40b | opcert cache keyed without the issuer key – needs a validator that has already seen a genuine header | validator histories on one instance |
+| C41b | VRF tie-break by `bytes.Compare` – pairs of different-length outputs were skipped by the reference | numeric reference for all lengths, mixed-length pool |
+| C44 | sequence number handed back with CAS – needs two submitters blocked at once | concurrent-submitter family (callers observed parked, every cancel position) |
+""")
 r=V+'/seeded/RESULTS.md'
 if os.path.exists(r): print(open(r).read())
